@@ -3236,7 +3236,6 @@ func alwaysError(fn *ssa.Function, d int) bool {
 	return all && n > 0
 }
 
-
 // r94StrictTravels (clause c): a Column literal that takes over the values table of an existing column takes
 // over that column's strict flag as well. The table and the flag belong together: a column derived from a
 // declared enum (Subset for GroupBy/Aggregate results) that silently becomes non-strict accepts undeclared
